@@ -72,14 +72,18 @@ JwtMutations == { "identity", "alg_none", "alg_none_signature_kept", "hs256_with
                   "expired_claim_edited", "garbage",
                   \* protected headers that make a JOSE library leave its usual path before it has looked at the signature
                   "crit_string_payload_edited", "crit_string_alg_none", "crit_unknown_extension", "embedded_jwk_signed_by_other_key",
-                  "b64_false_payload_edited", "header_not_an_object" }
+                  "b64_false_payload_edited", "header_not_an_object",
+                  \* the operator replaces the signing key of the running server (same kid, or none): from then on the configured key is
+                  \* the new one -- a token signed by the retired key is refused, a token minted afterwards is accepted
+                  "retired_key_after_rotation", "current_key_after_rotation" }
+JwtGenuine == {"identity", "current_key_after_rotation"}
 (* validator: "stored" = the introspection handler that looks the token's signature up in the store;
               "stateless" = StatelessJWTValidator, which trusts the JWT alone (no revocation, by design) and rebuilds the
               request from the claims.  age: presented before / after the token's expiry.  scope: the scope the resource
               server asks for is / is not among the granted ones.  sess: the session type the application handed to the
               token endpoint (the harness's OpenID Connect session or the library's oauth2.JWTSession). *)
 JwtRow(m, v, a, sc, se) == [kind |-> "jwt", mut |-> m, validator |-> v, age |-> a, scope |-> sc, sess |-> se,
-                            accept |-> m = "identity" /\ a = "fresh" /\ sc = "covered"]
+                            accept |-> m \in JwtGenuine /\ a = "fresh" /\ sc = "covered"]
 JwtRows == { JwtRow(m, v, "fresh", "covered", se) : m \in JwtMutations, v \in {"stored", "stateless"}, se \in {"openid", "jwtsession"} }
            \cup { JwtRow("identity", v, a, sc, se) : v \in {"stored", "stateless"}, a \in {"fresh", "expired"}, sc \in {"covered", "not_covered"},
                                                     se \in {"openid", "jwtsession"} }
